@@ -15,6 +15,7 @@ import Driver.Id3Spec
 import Driver.TagCodec
 import Driver.Mp4
 import Driver.TagCodec2
+import Driver.Id3File
 open Driver
 
 def dispatch (line : String) : String :=
@@ -38,6 +39,7 @@ def dispatch (line : String) : String :=
     | "tagc" => tagcOp a
     | "mp4" => mp4Op a
     | "tagc2" => tagc2Op a
+    | "id3f" => id3fOp a
     | "flacinfo" => flacInfoOp a
     | "ping" => "pong"
     | _ => "bad-op"
